@@ -24,6 +24,7 @@ func init() {
 			ruleErrorDiscipline(r, "R7")
 			ruleFailFastOnlyWhenClosed(r, "R8")
 			ruleC05R9(r)
+			ruleC05R10(r)
 		},
 	})
 }
@@ -551,5 +552,81 @@ func ruleC05R9(r *Run) {
 				r.Check(fmt.Sprintf("%s connection-done branch#%d", name, k), hasLeaf(l, "global:/errors.ErrConnectionClosed"), posOf(p, ret), name, "the error returned when the connection's own context ended derives from ["+joinLeaves(l)+"]; iscp.(*Conn).send re-sends a request only for ErrConnectionClosed, anything else fails the caller although the library is about to reconnect")
 			}
 		})
+	}
+}
+
+// ruleC05R10: the retry wrapper may declare the connection lost (status Reconnecting) on the strength of a request
+// error only if that error belongs to the wire connection that is current now. An error that surfaces late — from a
+// connection that the reconnect supervisor has already replaced — must lead to a plain re-send; flipping the status
+// of the healthy new connection makes the run group fail, the new connection is closed and redialled, and the
+// application sees a second disconnected/reconnected pair for one outage.
+func ruleC05R10(r *Run) {
+	r.Begin("R10", "no reconnect on a stale error: in (*Conn).send the status call that can move a Connected connection to Reconnecting is conditional — evaluated from Connected it can also leave the status alone — and the condition is a ticket taken from the status holder before the request was issued (an argument whose defining call dominates the call of the request function)", 1)
+	p := r.P
+	fn := r.method("/iscp", "Conn", "send")
+	fld := r.field("/iscp", "connStatus", "current")
+	holder := r.named("/iscp", "connStatus")
+	if fn == nil || fld == nil || holder == nil {
+		return
+	}
+	connected, ok1 := p.enumConst("/iscp", "connStatusConnected")
+	reconnecting, ok2 := p.enumConst("/iscp", "connStatusReconnecting")
+	if !ok1 || !ok2 {
+		r.Undecided("status constants", "not found")
+		return
+	}
+	name := fnName(fn)
+	var fcall *ssa.Call
+	allInstrs(fn, func(ins ssa.Instruction) {
+		if c, ok := ins.(*ssa.Call); ok && !c.Call.IsInvoke() && c.Call.StaticCallee() == nil {
+			if _, isParam := c.Call.Value.(*ssa.Parameter); isParam {
+				fcall = c
+			}
+		}
+	})
+	if fcall == nil {
+		r.Undecided(name+" request call", "the call of the function parameter was not found")
+		return
+	}
+	onHolder := func(c *ssa.Call) bool {
+		cal := c.Call.StaticCallee()
+		return cal != nil && cal.Signature.Recv() != nil && namedOf(cal.Signature.Recv().Type()) == holder
+	}
+	k := 0
+	allInstrs(fn, func(ins ssa.Instruction) {
+		c, ok := ins.(*ssa.Call)
+		if !ok || !onHolder(c) || !dominatesInstr(fcall, c) {
+			return
+		}
+		outs, err := stateOutcomes(c, fld, connected)
+		if err != "" {
+			return
+		}
+		canFlip, canStay := false, false
+		for _, o := range outs {
+			if o.after == reconnecting {
+				canFlip = true
+			}
+			if o.after == connected {
+				canStay = true
+			}
+		}
+		if !canFlip {
+			return
+		}
+		k++
+		ticket := false
+		for _, a := range c.Call.Args[1:] {
+			if _, isK := a.(*ssa.Const); isK {
+				continue
+			}
+			if tc, isCall := canonVal(a).(*ssa.Call); isCall && onHolder(tc) && dominatesInstr(tc, fcall) {
+				ticket = true
+			}
+		}
+		r.Check(fmt.Sprintf("%s flip#%d to Reconnecting", name, k), canStay && ticket, posOf(p, c), name, fmt.Sprintf("%s can move a Connected connection to Reconnecting after a request failed; it can also leave it alone: %v; the decision uses a ticket read from the status before the request: %v. An unconditional flip lets the late error of an already replaced wire connection take the new one down", callName(c), canStay, ticket))
+	})
+	if k == 0 {
+		r.Undecided(name+" flip", "no status call after the request in send can move Connected to Reconnecting")
 	}
 }
